@@ -70,6 +70,9 @@ class GhostCursor(object):
         return self
 
     def executemany(self, query, seq):
+        from .core import SSeq
+        if not isinstance(seq, (list, tuple, SSeq)):
+            seq = list(seq)            # consume the (interpreted) generator now, as sqlite3 does
         q = self._log("executemany", query, seq)
         if self.conn.on_execute is not None:
             self.conn.on_execute(self, q, seq)
